@@ -177,14 +177,55 @@ Fixpoint plus_before_ph (st : list piece) : bool :=
   | [] => false
   end.
 
+(* a Blob value bound to a placeholder of the WHERE clause (anonymous: k-th value, $n: n-th) *)
+Definition is_blob (o : option val) : bool := match o with Some (VBlob _) => true | _ => false end.
+Definition contains_where (t : list Z) : bool :=
+  (fix go (l : list Z) : bool :=
+     match l with
+     | [] => false
+     | _ :: r => prefix_of [87;72;69;82;69] (map upper l) || go r
+     end) t.
+Fixpoint blob_in_where (st : list piece) (p1 p2 : list val) (seen : bool) (k : nat) : bool :=
+  match st with
+  | [] => false
+  | Lit t :: r => blob_in_where r p1 p2 (seen || contains_where t) k
+  | PhA :: r => (seen && (is_blob (nth_error p1 k) || is_blob (nth_error p2 k))) || blob_in_where r p1 p2 seen (S k)
+  | PhP n :: r => (seen && (is_blob (nth_error p1 (Z.to_nat (n - 1))) || is_blob (nth_error p2 (Z.to_nat (n - 1)))))
+                  || blob_in_where r p1 p2 seen k
+  end.
+
+(* number of anonymous placeholders in the WHERE clause *)
+Fixpoint anon_in_where (st : list piece) (seen : bool) : nat :=
+  match st with
+  | [] => O
+  | Lit t :: r => anon_in_where r (seen || contains_where t)
+  | PhA :: r => ((if seen then 1 else 0) + anon_in_where r seen)%nat
+  | PhP _ :: r => anon_in_where r seen
+  end.
+
+(* "DELETE FROM t WHERE id = ?" executed twice with the same value *)
+Definition pk_delete (st : list piece) : bool :=
+  list_eqb Z.eqb (norm st) [68;69;76;69;84;69;70;82;79;77;116;87;72;69;82;69;105;100;61;63].
+Definition val_eqb (a b : val) : bool :=
+  match a, b with
+  | VNull, VNull => true
+  | VBool x, VBool y => Bool.eqb x y
+  | VInt x, VInt y => x =? y
+  | VText x, VText y => zl_eqb x y
+  | VBlob x, VBlob y => zl_eqb x y
+  | VFloat x _, VFloat y _ => x =? y
+  | _, _ => false
+  end.
+Definition same_values (a b : list val) : bool := list_eqb val_eqb a b.
+
 (* class of a Run case; 0 = not a recorded finding *)
 Definition run_class (path : Z) (st : list piece) (p1 p2 : list cparam) (d k : list Z) : Z :=
   let got_raw := (nthz d 2 =? nthz d 4) && (nthz d 3 =? nthz d 5) in
   let first_ok := nthz d 2 =? nthz d 0 in
   let second_bad := negb (nthz d 3 =? nthz d 1) in
-  (* on each execution that differs, the literal statement worked and the bound one raised an error *)
-  let bound_errs := ((nthz d 2 =? nthz d 0) || ((nthz k 0 =? 0) && (nthz k 2 =? 1)))
-                    && ((nthz d 3 =? nthz d 1) || ((nthz k 1 =? 0) && (nthz k 3 =? 1))) in
+  (* on each execution that differs, the bound statement raised an error *)
+  let bound_errs := ((nthz d 2 =? nthz d 0) || (nthz k 2 =? 1))
+                    && ((nthz d 3 =? nthz d 1) || (nthz k 3 =? 1)) in
   if any_param is_int_min p1 p2 then 6
   else if path =? path_qry then
     (if negb (subst_stable (flat st) (vals p1)) || negb (subst_stable (flat st) (vals p2)) then 7
@@ -192,8 +233,14 @@ Definition run_class (path : Z) (st : list piece) (p1 p2 : list cparam) (d k : l
   else if stmt_is kw_select st && has_ph st && got_raw then 1
   else if stmt_is kw_delete st && has_ph st && got_raw then 2
   else if stmt_is kw_update st && plus_before_ph st && bound_errs then 8
+  else if stmt_is kw_update st && (2 <=? anon_in_where st false)%nat then 12
+  else if stmt_is kw_update st && blob_in_where st (vals p1) (vals p2) false O then 10
+  else if stmt_is kw_delete st && pk_delete st && same_values (vals p1) (vals p2) && first_ok && second_bad
+          && (nthz k 1 =? 0) && (nthz k 3 =? 0) then 9
   else if (path =? path_pex) && stmt_is kw_insert st && negb (canonical_insert st) && first_ok && second_bad then 3
   else if (path =? path_pex) && stmt_is kw_update st && simple_pk_update st && first_ok && second_bad then 4
+  else if (path =? path_pex) && stmt_is kw_insert st && canonical_insert st && first_ok && second_bad
+          && (nthz k 1 =? 1) && (nthz k 3 =? 0) then 11
   else 0.
 
 (* ---------------------------------------------------------------- the contract *)
